@@ -69,11 +69,18 @@ AnnMenu == <<
      Ann(<<Rule("or", RList(<< RSet(<<Rule("type", RStr("integer")), Rule("min", RNum("1"))>>), RStr("string") >>))>>, 0),
      Ann(<<Rule("enum", RList(<< RNum("12"), RStr("x"), RNull >>))>>, 3),
      Ann(<<Rule("max", RNum(Big))>>, 0),
-     Ann(<<Rule("type", RStr("integer")), Rule("const", RBool("true"))>>, 0) >>,
+     Ann(<<Rule("type", RStr("integer")), Rule("const", RBool("true"))>>, 0),
+     \* numbers in rules are reported as written, whatever their spelling
+     Ann(<<Rule("min", RNum("2.0")), Rule("max", RNum("12.00"))>>, 0),
+     Ann(<<Rule("min", RNum("-0")), Rule("max", RNum("12.000"))>>, 0),
+     Ann(<<Rule("min", RNum("0.50")), Rule("max", RNum("100.0"))>>, 2) >>,
   \* -0.50
   << Ann(<<Rule("type", RStr("decimal")), Rule("precision", RNum("2"))>>, 0),
      Ann(<<Rule("min", RNum("-1.5"))>>, 1),
-     Ann(<<Rule("type", RStr("decimal")), Rule("precision", RNum(Big))>>, 0) >>,
+     Ann(<<Rule("type", RStr("decimal")), Rule("precision", RNum(Big))>>, 0),
+     Ann(<<Rule("min", RNum("-1.50")), Rule("max", RNum("10.0")), Rule("exclusiveMaximum", RBool("true"))>>, 0),
+     Ann(<<Rule("min", RNum("-0.50")), Rule("max", RNum("-0.5"))>>, 0),
+     Ann(<<Rule("max", RNum("0.0"))>>, 1) >>,
   \* "Tom"
   << Ann(<<Rule("minLength", RNum("1"))>>, 0),
      Ann(<<Rule("regex", RStr("^T")), Rule("maxLength", RNum("10"))>>, 1),
@@ -124,7 +131,7 @@ AddProp(v, a) == /\ ~done /\ Len(props) < MaxProps
                  \* `optional` and allOf+optional annotate properties: always the case here
                  /\ props' = Append(props, [v |-> v, a |-> a]) /\ UNCHANGED <<rootAnn, done>>
 Finish(r) == /\ ~done /\ props # <<>> /\ r \in 0..2 /\ rootAnn' = r /\ done' = TRUE /\ UNCHANGED props
-Next == (\E v \in 1..Len(ValueMenu), a \in 0..7 : AddProp(v, a)) \/ (\E r \in 0..2 : Finish(r))
+Next == (\E v \in 1..Len(ValueMenu), a \in 0..12 : AddProp(v, a)) \/ (\E r \in 0..2 : Finish(r))
 Spec == Init /\ [][Next]_vars
 
 RootAnns == << NoAnn, Ann(<<>>, 1), Ann(<<Rule("additionalProperties", RBool("true"))>>, 2) >>
